@@ -539,27 +539,20 @@ def calculate_bargraph_display(bardata, top: float, bar_widths: list[int], maxro
                 c += ln
                 la, ln = last[i]
 
-            if la != seg_num:
-                ln = c + ln - end
-                c = end
-                continue
-
-            # same attribute, can extend
-            oa, on = o[-1]
-            on += c + ln - end
-            o[-1] = oa, on
-
-            i += 1
-            c += ln
-            if c == maxcol:
-                break
-            if i >= len(last):
-                raise ValueError(repr((on, maxcol)))
-            la, ln = last[i]
+            # the rest of the old run stays visible to the right of the new segment
+            # (the next new segment may start inside it)
+            ln = c + ln - end
+            c = end
 
         if i < len(last):
             o += [(la, ln)] + last[i + 1 :]
-        last = o
+        last = []
+        for bar_type, run in o:
+            # combine neighbouring runs of the same segment
+            if last and last[-1][0] == bar_type:
+                last[-1] = (bar_type, last[-1][1] + run)
+            else:
+                last.append((bar_type, run))
         y_count += 1
 
     if y_count:
